@@ -419,7 +419,8 @@ def thorough_extras(verif, repo, prop, seed, use_cache, ev, r1):
     rc = 0
     # (a) seeds
     stab = []
-    for k in (1, 2):
+    only_supp = bool(os.environ.get('VERIF_SUPPLEMENT_ONLY'))   # developer switch (tools/matrix-style runs on scratch copies): skip (a) and (b)
+    for k in (() if only_supp else (1, 2)):
         sd = (seed or 0) * 7 + k
         try:
             r = _check(verif, repo, prop, 'quick', seed, use_cache, False, time.time(), selftest=True,
@@ -433,7 +434,7 @@ def thorough_extras(verif, repo, prop, seed, use_cache, ev, r1):
         eprint('note: obligations of %s not re-discharged under another Z3 seed (proof instability, not a violation): %s' % (prop, unstable))
     # (b) seeded changes
     st = []
-    for d in sorted(glob.glob(os.path.join(verif, 'seeded', prop + '*'))):
+    for d in ([] if only_supp else sorted(glob.glob(os.path.join(verif, 'seeded', prop + '*')))):
         patch = os.path.join(d, 'patch.diff')
         if not os.path.exists(patch):
             continue
